@@ -144,10 +144,13 @@ def check_c01(ctx):
         win = events[max(0, l - 12):l]
         ctx.fail("C01/delivery/" + str(why), "manager-level run: the consumer saw %s; record %d of the trace: %s" % (why, l - 1, json.dumps(events[l - 2] if 2 <= l <= len(events) + 1 else {})),
                  {"trace_window": win})
+    # (T) operator level: free-running operator, every created object must end up in a successful execution, in order
+    import op
+    nlog = op.oplog(ctx, "C01")
     ctx.cov["delivery_runs"] = runs
     ctx.cov["delivery_events"] = len(events)
     ctx.log("manager level: %d free-running runs (%d trace records) validated by TLC against KubeDelivery: %s" % (runs, len(events), t["violated"] or "accepted"))
-    ctx.cov["traces_validated_against_impl"] = len(cases) + ns_cases + runs
+    ctx.cov["traces_validated_against_impl"] = len(cases) + ns_cases + runs + nlog
     ctx.cov["evaluations"] = len(cases) + ns_cases
     ctx.cov["distinct_nontrivial"] = len({json.dumps([s["act"] for s in c["steps"]]) for c in cases if len(c["steps"]) > 8})
     ctx.cov["replay"] = stats
